@@ -141,6 +141,7 @@ def embed(rng, e):
 
 class C08(framework.PropertyCheck):
     pid = 'C08'
+    theorem_coverage = True
     quick_cases = 1200
     thorough_cases = 30000
     rule = ('trees over the rewritten operators (if do + * && ||) and neighbours with operands from a 14-atom alphabet (0 1 2 0.0 1.5 "" "a" #t #f, '
